@@ -56,7 +56,9 @@ def _no_fallthrough_created(case, failure):
         if ed is None:
             return False
         g = ed.b
-        if ed.i + ed.n != len(case.blocks[g].units):
+        # the patch ends up last in its block: it sits at the block end, or everything behind it was deleted
+        Lm.Expected(case)  # marks deleted units
+        if not all(u.deleted for u in case.blocks[g].units[ed.i + ed.n:]):
             return False
         # another patch at the same block end that ends in jmp / ret
         for o in case.edits:
@@ -87,6 +89,12 @@ def _patch_ret(case, failure):
     f = case.blocks[ed.b].func
     if f is None:
         return True
+    # the patch itself calls its host function: that call's return site is not part of the snapshot either
+    items, _ = case.patch_units(ed)
+    for x in items:
+        if isinstance(x, Lm.Unit) and x.kind == "call" and x.sym in case.label_block \
+                and case.blocks[case.label_block[x.sym][0]].func == f:
+            return True
     has_ret = any(b.func == f and b.units[-1].kind == "ret" for b in case.blocks if b.code)
     has_caller = False
     for b in case.blocks:
